@@ -148,7 +148,9 @@ Fixpoint from_loop (fuel : nat) (st : list token * str * str) : option (list tok
 Record command := mkc {
   c_tokens : list token; c_redirs : list redirection; c_from : option (str * str) }.
 
-Inductive perr := PRedir (e : rerr) | PFuel.
+(** [PEmpty]: "syntax error: empty command" -- [CommandLine::from_line] rejects a stage
+    that is left without words after redirection extraction (types.rs, fix baff407). *)
+Inductive perr := PRedir (e : rerr) | PFuel | PEmpty.
 
 Definition from_tokens (l : list token) : command + perr :=
   match from_loop (S (length l)) (l, [], []) with
@@ -199,7 +201,8 @@ Fixpoint map_cmds (l : list (list token)) : list command + perr :=
   | [] => inl []
   | t :: r => match from_tokens t with
               | inr e => inr e
-              | inl c => match map_cmds r with inl cs => inl (c :: cs) | inr e => inr e end
+              | inl c => if is_empty (c_tokens c) then inr PEmpty
+                         else match map_cmds r with inl cs => inl (c :: cs) | inr e => inr e end
               end
   end.
 
